@@ -253,6 +253,8 @@ def _siblings(ctx, mir) -> None:
             seven = False
             for p in sym.run(0, mirsym.NEVER):
                 ret = p.state.get("_0")
+                if isinstance(ret, ast.Call) and un(ret.func) == "unsigned_abs" and len(ret.args) == 1:
+                    ret = ret.args[0]       # w is a remainder modulo 7 of a non-negative sum
                 zero_path = any(mirsym.cond_bool(v, k) and un(mirsym.cond_bool(v, k)[0]).endswith("== 0") and mirsym.cond_bool(v, k)[1] for v, k in p.conds)
                 if zero_path:
                     seven = isinstance(ret, ast.Constant) and ret.value == 7
@@ -402,6 +404,14 @@ def _ieval(n: ast.AST, env: dict) -> float:
         a, b = _ieval(n.left, env), _ieval(n.right, env)
         return {ast.Add: a + b, ast.Sub: a - b, ast.Mult: a * b, ast.FloorDiv: a // b if b else 0, ast.Div: a / b if b else 0,
                 ast.Mod: a % b if b else 0}[type(n.op)]
+    if isinstance(n, ast.Compare) and len(n.ops) == 1:
+        a, b = _ieval(n.left, env), _ieval(n.comparators[0], env)
+        return {ast.Eq: a == b, ast.NotEq: a != b, ast.Lt: a < b, ast.LtE: a <= b, ast.Gt: a > b, ast.GtE: a >= b}[type(n.ops[0])]
+    if isinstance(n, ast.BoolOp):
+        vals = [_ieval(v, env) for v in n.values]
+        return all(vals) if isinstance(n.op, ast.And) else any(vals)
+    if isinstance(n, ast.UnaryOp) and isinstance(n.op, ast.Not):
+        return not _ieval(n.operand, env)
     if isinstance(n, ast.Call) and un(n.func) == "math.ceil":
         return math.ceil(_ieval(n.args[0], env))
     if isinstance(n, ast.IfExp):
@@ -419,14 +429,16 @@ def _getters(ctx) -> None:
         p = cfg.paths(fn)[0]
         expr = cfg.subst_path(p, p.exit()[2].value, set())
         bad = []
-        for leap in (0, 1):
+        # one representative year per class of the Gregorian rule (div. by 400 / by 100 only / by 4 only / not by 4)
+        for year, leap in ((2000, 1), (1900, 0), (2024, 1), (2023, 0)):
             for month in range(1, 13):
-                v = _ieval(expr, {"self.month": month, "self.day": 0, "leap": leap})
+                v = _ieval(expr, {"self.month": month, "self.day": 0, "leap": leap, "self.year": year})
                 if v != mo[leap][month]:
-                    bad.append((leap, month, v, mo[leap][month]))
+                    bad.append((year, month, v, mo[leap][month]))
         ctx.ob("TABULATE.day_of_year", "Date.day_of_year", not bad,
-               f"closed form minus day vs MONTHS_OFFSETS over month 1..12 x leap: mismatches {bad[:4]}", m.loc(fn))
-        ctx.count("tabulated_cases", 24)
+               f"closed form minus day vs MONTHS_OFFSETS over month 1..12 x the four leap-rule classes (2000, 1900, 2024, 2023): "
+               f"mismatches (year, month, got, want) {bad[:4]}", m.loc(fn))
+        ctx.count("tabulated_cases", 48)
     except (core.Unsupported, KeyError) as e:
         ctx.unverified("TABULATE.day_of_year", "Date.day_of_year", str(e), m.loc(fn))
     fn = m.func("Date.quarter")
